@@ -1422,6 +1422,9 @@ class Interp:
                         print("RAISE", v if len(repr(v)) < 80 else repr(v)[:80], "at line", s.lineno, "in", " <- ".join(chain_[:6]))
                     out.append(("raise", v, r.state))
             return self._dd(out)
+        if isinstance(s, ast.ImportFrom) and getattr(d, "import_from", None) is not None:
+            s2 = d.import_from(self, s, st, fr)
+            return [("next", None, s2 if s2 is not None else st)]
         if isinstance(s, ast.Pass) or isinstance(s, (ast.Import, ast.ImportFrom, ast.Global, ast.Nonlocal)):
             return [("next", None, st)]
         if isinstance(s, FUNC_TYPES):
@@ -1677,7 +1680,10 @@ class Interp:
     def _eager_comprehension(self, comp, st, fr):
         """[elt for target in <exact sequence> if conds for ...] -> ("tuple", v0, v1, ...); None when an
         iterated value is not an exact sequence (the domain's <comprehension> hook decides then)."""
-        if isinstance(comp, ast.DictComp) or any(g.is_async for g in comp.generators):
+        if any(g.is_async for g in comp.generators):
+            return None
+        is_dict = isinstance(comp, ast.DictComp)
+        if is_dict and not (getattr(self.domain, "exact_dicts", False) and getattr(self.domain, "_dkey", None) is not None):
             return None
         gens = comp.generators
         excs = []
@@ -1686,6 +1692,13 @@ class Interp:
             if gi == len(gens):
                 done = []
                 for c, acc in states:
+                    if is_dict:
+                        for r2 in self.eval_list([comp.key, comp.value], c, fr):
+                            if r2.kind == "exc":
+                                excs.append(r2)
+                            else:
+                                done.append((r2.state, acc + ((r2.value[0], r2.value[1]),)))
+                        continue
                     for r2 in self.eval(comp.elt, c, fr):
                         if r2.kind == "exc":
                             excs.append(r2)
@@ -1765,6 +1778,19 @@ class Interp:
         final = run(0, [(st, ())])
         if final is None:
             return None
+        if is_dict:
+            out = list(excs)
+            for c, acc in final:
+                items = {}
+                exact = True
+                for k_, v_ in acc:
+                    ok_, pk = self.domain._dkey(unbox(k_, c))
+                    if not ok_:
+                        exact = False
+                        break
+                    items[pk] = v_   # (a later entry with the same key replaces the earlier one, in place)
+                out.append(val(("kwdict", tuple(items.items())) if exact else TOP, c))
+            return out
         tag = "lazyseq" if isinstance(comp, ast.GeneratorExp) else "tuple"
         return excs + [val((tag,) + acc, c) for c, acc in final]
 
